@@ -140,6 +140,11 @@ def run(tier: str, replay: str | None = None):
         for i in range(4 if tier == "quick" else 40):
             src, calls = G.gen_composite_module(crng, 12, hist)
             mods.append({"id": f"comp{i}", "src": src, "calls": calls})
+        # match statements with capture patterns over statically shaped subjects, captured names read afterwards
+        mrng = random.Random(lib.seed() * 7919 + 5303)
+        for i in range(3 if tier == "quick" else 30):
+            src, calls = G.gen_match_module(mrng, 12, hist)
+            mods.append({"id": f"match{i}", "src": src, "calls": calls})
     by_id = {m["id"]: m for m in mods}
 
     # 3. run implementation + CPython + oracle (subprocess shards)
